@@ -993,6 +993,20 @@ pub fn exec(plan: &WirePlan) -> RunOut {
                     if b.req.is_some() || protocol_route {
                         if !is4xx {
                             out.violations.push(viol(&["C15"], "wire.ambiguous_neither", format!("{} answered {}: neither a refusal nor the model's outcome", b.label, raw.status)));
+                        } else if matches!(op.route, Route::GetChild)
+                            && matches!(raw.status, 404 | 410)
+                            && matches!(op.pid, PidForm::Braced | PidForm::Urn | PidForm::Simple | PidForm::Upper)
+                            && matches!(op.cid, CidForm::Valid)
+                            && matches!(op.method, MethodForm::Correct)
+                        {
+                            // 404 and 410 are protocol answers of this route ("you are up to date" /
+                            // "that version is gone"): a server may refuse another spelling of a uuid,
+                            // but not with a status the client reads as an answer about that version
+                            out.violations.push(viol(
+                                &["C08", "C14"],
+                                "wire.id_spelling_changes_protocol_answer",
+                                format!("{} answered {} - to a client that is {} - although the model's answer for this parent id differs", b.label, raw.status, if raw.status == 404 { "not-found" } else { "gone" }),
+                            ));
                         } else if let Some(d) = &changed {
                             out.violations.push(viol(&["C15", "C18"], "wire.refused_changed_state", format!("{} answered {} but changed state: {d}", b.label, raw.status)));
                         }
